@@ -8,7 +8,7 @@ CONSTANTS
   MaxDups = 0
   MaxHeartbeats = 0
   MaxLog = 3
-  MaxNet = 3
+  MaxNet = 2
   MaxEnts = 1
   LossySend = TRUE
   SimDepth = 0
